@@ -3,7 +3,7 @@ from ..registry import rule
 from ..core import (origin_of_operand, AnchorMissing, comparisons, rel_str, mirror, feasible_reach, bool_call_condition,
                     result_fate, result_err_type, forward_taint)
 from .common import *
-from .walrules import rule_eof_only_at_block_boundary
+from .walrules import rule_eof_only_at_block_boundary, rule_every_record_crc_checked
 
 EXPLANATION = ("Verify-before-use and error discipline on the read paths, decided structurally: table blocks are "
                "decompressed / parsed only on the success edge of the checksum comparison; every block load goes through the "
@@ -222,6 +222,7 @@ def r4(cx):
 def r5(cx):
     f = cx.f
     rule_eof_only_at_block_boundary(cx)
+    rule_every_record_crc_checked(cx)
     b = f.body("VLog::get")
     ins = sites(cx, b, "BlockCache::insert_vlog")
     n = 0
